@@ -669,7 +669,7 @@ func ScanWALDirectory(dataDir string) (*WALSummary, error) {
 	var walFiles []string
 	for _, e := range entries {
 		name := e.Name()
-		if !e.IsDir() && len(name) == 24 && !strings.HasSuffix(name, ".history") {
+		if !e.IsDir() && isWALSegmentName(name) {
 			walFiles = append(walFiles, name)
 		}
 	}
@@ -757,6 +757,21 @@ func ScanWALDirectory(dataDir string) (*WALSummary, error) {
 	return summary, nil
 }
 
+// isWALSegmentName reports whether name is the name of a WAL segment file: 24 upper-case hexadecimal digits
+// (timeline, log and segment number; PostgreSQL's IsXLogFileName).
+func isWALSegmentName(name string) bool {
+	if len(name) != 24 {
+		return false
+	}
+	for i := 0; i < len(name); i++ {
+		c := name[i]
+		if !(c >= '0' && c <= '9') && !(c >= 'A' && c <= 'F') {
+			return false
+		}
+	}
+	return true
+}
+
 // GetRecentWALRecords returns the most recent WAL records
 func GetRecentWALRecords(dataDir string, limit int) ([]WALRecord, error) {
 	// "at most limit records": a negative limit asks for none (it used to make allRecords[len-limit:] panic)
@@ -772,7 +787,7 @@ func GetRecentWALRecords(dataDir string, limit int) ([]WALRecord, error) {
 	var walFiles []string
 	for _, e := range entries {
 		name := e.Name()
-		if !e.IsDir() && len(name) == 24 && !strings.HasSuffix(name, ".history") {
+		if !e.IsDir() && isWALSegmentName(name) {
 			walFiles = append(walFiles, name)
 		}
 	}
